@@ -107,7 +107,7 @@ def parseVOut (j : Json) : VOut :=
   | _ => .error .keyError
 
 /-- branch id of `verifyRedirect` (coverage statistics only) -/
-def verifyPath (T : Tables) (C : Codec (Sig String)) (msg : Dict) (pk : Pub String) : String :=
+def verifyPath (T : Tables) (C : Codec (Sig String)) (msg : Dict) (kr : KeyRes String) : String :=
   match msg.get kSigAlg with
   | none => "v/error:no-sigalg"
   | some alg =>
@@ -122,17 +122,45 @@ def verifyPath (T : Tables) (C : Codec (Sig String)) (msg : Dict) (pk : Pub Stri
         match msg.get kSignature with
         | none => "v/error:no-signature"
         | some st =>
+          match kr with
+          | .raises => "v/error:malformed-certificate"
+          | .under pk =>
           match C.b64d st with
           | none => "v/error:base64"
           | some (.junk _) => "v/false:junk-signature"
           | some (.signed k d m) =>
             let octets := signedString C.enc ord (msg.del kSignature)
+            match pk with
+            | none => "v/false:no-usable-key"
+            | some pk =>
             if pk ≠ pub k then "v/false:other-key"
             else if d ≠ dig then "v/false:other-digest"
             else if m ≠ octets then "v/false:other-octets"
             else "v/verified:" ++ dir
 
-def pubOpt (j : Json) (k : String) : Option (Pub String) := (str? j k).map pub
+/-- `kind`: "rsa" (default) | "other" (EC, Ed25519, DSA key object) -/
+def vkeyOf (name kind : String) : VKey String := if kind == "other" then .other else .rsa (pub name)
+
+/-- certificate argument: `cert` = key name, `cert_kind` = "rsa" | "other" | "malformed" | "empty";
+    null or "empty" (a falsy string) = no certificate -/
+def certOpt (c : Json) : Option (Cert String) :=
+  match str? c "cert" with
+  | none => none
+  | some name =>
+    match strD c "cert_kind" "rsa" with
+    | "empty" => none
+    | "malformed" => some .malformed
+    | kind => some (.holds (vkeyOf name kind))
+
+def sigkeyOpt (c : Json) : Option (VKey String) :=
+  (str? c "sigkey").map fun name => vkeyOf name (strD c "sigkey_kind" "rsa")
+
+/-- metadata certificates of the sender: key names, or `{"k": name, "kind": ...}` -/
+def certList (c : Json) : List (VKey String) :=
+  (arrD c "certs").filterMap fun j =>
+    match j with
+    | .str name => some (.rsa (pub name))
+    | _ => (str? j "k").map fun name => vkeyOf name (strD j "kind" "rsa")
 
 def selfCheck : Bool :=
   kSAMLRequest == toStr "SAMLRequest" && kSAMLResponse == toStr "SAMLResponse" && kSAMLart == toStr "SAMLart" &&
@@ -176,24 +204,24 @@ def handle (line : Json) : Json :=
   | "verify" =>
     let msg := parsePairs (arrD c "msg")
     let C := codecFor (decTable c (msg.get kSignature))
-    let own := strD c "own"
-    let cert := pubOpt c "cert"
-    let sigkey := pubOpt c "sigkey"
+    let own := str? c "own"
+    let cert := certOpt c
+    let sigkey := sigkeyOpt c
     let m := verifyRedirect T C own msg cert sigkey
-    let pk := effKey own cert sigkey
+    let pk := verificationKey own cert sigkey
     let iv := parseVOut impl
     let si := specVerify C msg pk iv
-    Json.mkObj [("model", voutToJson m), ("path", verifyPath T C msg pk),
+    Json.mkObj [("model", voutToJson m), ("path", verifyPath T C msg (effKey own cert sigkey)),
       ("spec_model", specVerify C msg pk m), ("spec_impl", si),
       ("why", if si then Json.null else Json.str
-        (if iv == .verified then "treated as verified although the Signature is not the key holder's signature (announced digest) over the received SAMLRequest/SAMLResponse, RelayState and SigAlg"
+        (if iv == .verified then "treated as verified although the Signature is not a signature by the key of the given certificate / sigkey (announced digest) over the received SAMLRequest/SAMLResponse, RelayState and SigAlg"
          else "an authentic signed parameter set was not verified"))]
   | "server" =>
     let origdoc := toStr (strD c "origdoc")
     let signature := optS c "signature"
     let C := codecFor (decTable c signature)
-    let own := strD c "own"
-    let certs := (strList c "certs").map pub
+    let own := str? c "own"
+    let certs := certList c
     let must := boolD c "must"
     let wf := boolD c "wellformed"
     let rs := optS c "relay_state"
@@ -205,7 +233,7 @@ def handle (line : Json) : Json :=
       if !must then "srv/signature-not-required"
       else match sigalg, signature with
         | some a, some s =>
-          let outs := certs.map fun k => verifyRedirect T C own (loadsMsg origdoc a s rs) (some k) none
+          let outs := certs.map fun k => verifyRedirect T C own (loadsMsg origdoc a s rs) (some (.holds k)) none
           if certs.isEmpty then "srv/refused:no-certs"
           else match anyVerified outs with
             | some true => if outs.head? == some .verified then "srv/accepted:first-cert" else "srv/accepted:later-cert"
